@@ -198,6 +198,11 @@ def _judge_shard(module, cfg, path, n, env, timeout):
     e = {'TRACE_FILE': str(path)}
     e.update(env or {})
     r = run_tlc(module, cfg, workers=1, env=e, timeout=timeout)
+    if not r.ok:
+        # a JVM that could not start on an overloaded machine says nothing about the
+        # records: judge the shard once more before giving up
+        time.sleep(2)
+        r = run_tlc(module, cfg, workers=1, env=e, timeout=timeout)
     j = Judgement()
     j.records = n
     j.wall = r.wall
